@@ -3,6 +3,7 @@
 # 1. confirms the seeded change in its worktree (builds, existing tests pass, demo fails with it and passes without)
 # 2. stores it under /verif/seeded/<name>/  3. applies it to /repo, runs the given checks (quick), reverts /repo
 set -u
+export VERIF_NO_EVIDENCE=1   # evidence files describe runs against the unchanged /repo only
 export GOFLAGS=-mod=mod GOPROXY=off GOSUMDB=off GOTOOLCHAIN=local
 NAME=$1; WT=$2; PROP=$3; shift 3
 OUT=/verif/seeded/$NAME; mkdir -p $OUT
@@ -23,14 +24,21 @@ git stash -q -- $(git diff --name-only) 2>/dev/null
 go test -vet=off -count=1 -run 'Demo' $PKG > $OUT/demo_without_change.txt 2>&1; WO=$?
 git stash pop -q
 echo "demo exit with change: $W (want != 0), without: $WO (want 0)"
-cd /repo && git apply $OUT/patch.diff || { echo "patch does not apply to /repo"; exit 1; }
+if [ -n "${MUT_SCRATCH:-}" ]; then
+  # /repo is busy (a full run is reading it): use a scratch copy of /repo's working tree instead
+  TARGET=/tmp/scratch/m_$NAME; mkdir -p /tmp/scratch; rsync -a --delete --exclude .git /repo/ $TARGET/
+  (cd $TARGET && patch -p1 -s < $OUT/patch.diff) || { echo "patch does not apply to the scratch copy"; exit 1; }
+  export VERIF_REPO=$TARGET
+else
+  cd /repo && git apply $OUT/patch.diff || { echo "patch does not apply to /repo"; exit 1; }
+fi
 RES=""
 for c in "$@"; do
   (cd /verif && timeout 1500 ./check $c quick > $OUT/check_$c.txt 2>&1); rc=$?
   RES="$RES $c=exit$rc"
   grep -h "VIOLATION" $OUT/check_$c.txt | head -3 | cut -c1-260
 done
-git -C /repo checkout -- . 
+if [ -n "${MUT_SCRATCH:-}" ]; then rm -rf $TARGET; else git -C /repo checkout -- . ; fi
 echo "RESULT $NAME prop=$PROP existing_fail=$EXIST demo_with=$W demo_without=$WO checks:$RES"
 cat > $OUT/meta.json <<EOM
 {"name":"$NAME","property":"$PROP","source":"independent sub-agent in scratch worktree","existing_suite_fail_lines_with_change":$EXIST,
